@@ -311,10 +311,16 @@ theorem NP.crxHandler (t : Bytes) : NP (crxHandler t) := by
 
 theorem NP.readCrxMoov : NP readCrxMoov := NP.loop Pres.crxHandler NP.crxHandler .ret NP.close
 
-theorem NP.readPreview : NP readPreview := by
-  unfold Bmff.readPreview
+theorem NP.prvwBody (t : Bytes) : NP (prvwBody t) := by
+  unfold Bmff.prvwBody
   np
   all_goals exact NP.callback _ _
+
+theorem NP.readPreview : NP readPreview := by
+  unfold Bmff.readPreview
+  have := NP.prvwBody
+  np
+  all_goals exact NP.prvwBody _
 
 theorem NP.readUUIDBox : NP readUUIDBox := by
   unfold Bmff.readUUIDBox
